@@ -131,3 +131,14 @@ Theorem C14_buffered_ordered_quiet_poll :
   /\ twakes (log w') = twakes (log w) + (if Nat.ltb (length (bqueue kb)) (pB P) then 0 else 1).
 Proof. exact adapter_ordered_poll_quiet. Qed.
 Print Assumptions C14_buffered_ordered_quiet_poll.
+
+(** for_each_concurrent *)
+Theorem C14_for_each_concurrent_quiet_poll :
+  forall (P : params) (a : fec) (t : nat) (w : world) (kb : block),
+  up_quiet (fe_up a) ->
+  quiet_map KFut (tasks (fe_q a)) -> noinj w -> get_blk w (blk (fe_q a)) = Some kb -> fub_len (fe_q a) <> 0 ->
+  let '(a', r, w') := fec_poll P a t w in
+  r = RetPending
+  /\ twakes (log w') = twakes (log w) + (if Nat.ltb (length (bqueue kb)) (pB P) then 0 else 1).
+Proof. exact fec_poll_quiet. Qed.
+Print Assumptions C14_for_each_concurrent_quiet_poll.
